@@ -291,6 +291,9 @@ def targets(tier='quick'):
     for u in (True, False):
         T.append(Target('deg/per-bath-influence[MeanFieldTempo,unique=%s]' % u, 'tempo.MeanFieldTempo._prepare_backend', scen_mf(u), post_mf,
                         mf_registry(), PROP, invoke=invoke_mf, replay=lambda ob: {'func': 'mean_field_two_baths', 'inputs': {'obligation': ob['name']}}))
+    # util.create_delta on its real body: the contract the targets above assume at its call sites
+    from . import delta
+    T += delta.targets(PROP)
     return T
 
 
